@@ -475,8 +475,26 @@ class G:
                 continue
             # TABLE-KEY + TABLE-STRUCT pair
             if not must_static and r >= 92 and self.opts.get("tables", True):
-                tk, ts, tval, kval = self.table_group(slot_tail)
+                # (option, C08 only - such a list can be encoded but the key is needed first for decoding:) the
+                # TABLE-STRUCT listed in front of its TABLE-KEY, both explicitly positioned, nothing behind them
+                struct_first = (not dynamic) and self.opts.get("table_struct_first") and self.chance(35)
+                tk, ts, tval, kval = self.table_group(slot_tail and not struct_first)
                 ksz = (tk["table"]["keydop"]["dct"]["bl"] + 7) // 8
+                if struct_first:
+                    tk["pos"] = pos
+                    tk["_end"] = pos + ksz
+                    tk["_explicit"] = True
+                    ts["pos"] = pos + ksz
+                    ts["_before"] = tk["name"]
+                    static_layout.append(tk)
+                    pos += ksz
+                    dynamic = True
+                    dyn_params.append(ts)
+                    values[ts["name"]] = tval
+                    if kval is not None:
+                        values[tk["name"]] = kval
+                    self.features.add("table-struct-listed-first")
+                    break
                 if not dynamic:
                     tk["pos"] = pos
                     tk["_end"] = pos + ksz
@@ -622,6 +640,10 @@ class G:
             prev_noimp = bool(q.get("_noimp"))
         static_end = pos
         out = order + dyn_params
+        for q in list(out):
+            if q.get("_before"):
+                out.remove(q)
+                out.insert([x["name"] for x in out].index(q.pop("_before")), q)
         for q in out:
             q.pop("_end", None)
             q.pop("_explicit", None)
